@@ -23,6 +23,7 @@ from .. import common as C
 PATTERNS = {
     "C01": r".",
     "C02": r".",
+    "C04": r"^to_|like",
     "C09": r"boost|to_beta3",
     "C10": r"rotate",
     "C11": r"^(add|subtract|dot|cross|unit|scale|neg\dD|abs|transform)|^a[+\-@]b|^[-+]v|^v[*/]|\*v$|\*\*|numpy\.(absolute|cbrt|sqrt|square|power)|operator/(?!v[=!]=)|==scale|is-function-of-norm",
@@ -48,6 +49,13 @@ def run(prop, report, coverage):
         ires = C.pool_map(c15.shard, [(s, m) for s in objsym.systems() for m in (False, True)])
         o_bad += [(oid, d) for r in ires for oid, d in r[1] if "/inplace/" in oid]
         o_n += sum(r[0] for r in ires)
+    # ---- Numba object backend: static contract on the glue (kernel receives the coordinates of the signature it was looked up for)
+    import os
+    from .. import numbaglue
+    ng, _sk = numbaglue.run(os.path.join(C.REPO, "src", "vector"))
+    ng = [(oid, ok, d) for oid, ok, d in ng if flt(oid.rsplit("/", 1)[1].split("Type_")[-1].split("@")[0])]
+    o_bad += [(f"{prop}/" + oid, d) for oid, ok, d in ng if not ok]
+    o_n += len(ng)
     # ---- NumPy backend on token arrays (parametric, all values) and the bounded Engine D lattice, restricted to this property's operations
     E.OP_FILTER = npsym.OP_FILTER = flt
     try:
@@ -78,7 +86,7 @@ def run(prop, report, coverage):
             continue
         nv += len(items)
         report.violation(new, dict(kind="public-api-glue", backend=kind, failing_points=len(items), first=dict(obligation=new, original=orig, detail=d),
-                                   others=[x[0] for x in items[1:6]], replay_handler="vv.props.glue_part:replay"), has_input=True)
+                                   others=[x[0] for x in items[1:6]], replay_handler="vv.props.glue_part:replay"), has_input="/numba-glue/" not in new)
     if o_n + n_n == 0:
         report.error(f"{prop}: the public-API glue part generated no obligations (operation filter matches nothing)")
     coverage["public_api_glue"] = dict(
@@ -107,6 +115,17 @@ def replay(prop, rp, path):
     kind = rp.get("backend")
     rp2 = dict(rp)
     rp2["first"] = dict(rp["first"], obligation=oid)
+    if "/numba-glue/" in oid:
+        import os
+        from .. import numbaglue
+        ng, _ = numbaglue.run(os.path.join(C.REPO, "src", "vector"))
+        still = [x for x in ng if not x[1] and oid.endswith(x[0])]
+        if still:
+            print("still failing:", still[0])
+            print(f"VIOLATION property={prop} replay={path} no-failing-input-found")
+            return 1
+        print("obligation holds on this tree")
+        return 0
     if kind == "object" and "/inplace/" in oid:
         from . import c15
         return c15.replay(prop, rp2, path)
